@@ -295,6 +295,106 @@ theorem gen_Precalc_getZoneIntervalTail_eq (ps : Array ZI) (tz : AltMap) (fi : Z
       obtain ⟨o, u, l⟩ := r
       cases o <;> rfl
 
+
+/-! ## `ZoneLocalMapping.single / first / last`: which interval is built and which exception is raised
+    (`build` = `__build_zoned_date_time`; the model's results are the instants of the built values, `buildInstant l`) -/
+
+private theorem count_cases3 {α : Type} (n : Nat) (a b c d : α) :
+    (if (n : Int) = 0 then a else if (n : Int) = 1 then b else if (n : Int) = 2 then c else d) =
+      (match n with | 0 => a | 1 => b | 2 => c | _ => d) := by
+  rcases n with _ | _ | _ | k
+  · rfl
+  · rfl
+  · rfl
+  · have h0 : ¬ (((k + 1 + 1 + 1 : Nat) : Int) = 0) := by omega
+    have h1 : ¬ (((k + 1 + 1 + 1 : Nat) : Int) = 1) := by omega
+    have h2 : ¬ (((k + 1 + 1 + 1 : Nat) : Int) = 2) := by omega
+    simp only [h0, h1, h2, if_false]
+
+private theorem count_cases2 {α : Type} (n : Nat) (a b d : α) :
+    (if (n : Int) = 0 then a else if (n : Int) = 1 ∨ (n : Int) = 2 then b else d) =
+      (match n with | 0 => a | 1 => b | 2 => b | _ => d) := by
+  rcases n with _ | _ | _ | k
+  · rfl
+  · rfl
+  · rfl
+  · have h0 : ¬ (((k + 1 + 1 + 1 : Nat) : Int) = 0) := by omega
+    have h1 : ¬ (((k + 1 + 1 + 1 : Nat) : Int) = 1 ∨ ((k + 1 + 1 + 1 : Nat) : Int) = 2) := by omega
+    simp only [h0, h1, if_false]
+
+theorem gen_ZoneLocalMapping_count_eq (m : Mapping) : Gen.C05.ZoneLocalMapping.count m = (m.count : Int) := rfl
+
+theorem gen_ZoneLocalMapping_first_eq (build : ZI → R Int) (m : Mapping) :
+    Gen.C05.ZoneLocalMapping.first build m =
+      (match m.count with
+        | 0 => .error .skippedTime
+        | 1 => build m.early
+        | 2 => build m.early
+        | _ => .error .runtimeError) := by
+  unfold Gen.C05.ZoneLocalMapping.first
+  simp only [gen_ZoneLocalMapping_count_eq, gen_ZoneLocalMapping_earlyInterval_eq]
+  exact count_cases2 _ _ _ _
+
+theorem gen_ZoneLocalMapping_last_eq (build : ZI → R Int) (m : Mapping) :
+    Gen.C05.ZoneLocalMapping.last build m =
+      (match m.count with
+        | 0 => .error .skippedTime
+        | 1 => build m.early
+        | 2 => build m.late
+        | _ => .error .runtimeError) := by
+  unfold Gen.C05.ZoneLocalMapping.last
+  simp only [gen_ZoneLocalMapping_count_eq, gen_ZoneLocalMapping_earlyInterval_eq, gen_ZoneLocalMapping_lateInterval_eq]
+  exact count_cases3 _ _ _ _ _
+
+/-- `single()`: for an ambiguous time both candidates are built before `AmbiguousTimeError` is raised (their failure
+    would come first) -/
+theorem gen_ZoneLocalMapping_single_eq (build : ZI → R Int) (m : Mapping) :
+    Gen.C05.ZoneLocalMapping.single build m =
+      (match m.count with
+        | 0 => .error .skippedTime
+        | 1 => build m.early
+        | 2 => (do let _ ← build m.early; let _ ← build m.late; .error .ambiguousTime)
+        | _ => .error .runtimeError) := by
+  unfold Gen.C05.ZoneLocalMapping.single
+  simp only [gen_ZoneLocalMapping_count_eq, gen_ZoneLocalMapping_earlyInterval_eq, gen_ZoneLocalMapping_lateInterval_eq]
+  exact count_cases3 _ _ _ _ _
+
+/-- with the model's reading of a built value (its instant `l − wall`), `first()` / `last()` of a mapping that `map_local`
+    produced (count ≤ 2) are the model's `Mapping.first` / `Mapping.last` -/
+theorem gen_first_is_model (l : Int) (m : Mapping) (h : m.count ≤ 2) :
+    Gen.C05.ZoneLocalMapping.first (buildInstant l) m = m.first l := by
+  rw [gen_ZoneLocalMapping_first_eq]
+  unfold Mapping.first
+  rcases hm : m.count with _ | _ | _ | k
+  · rfl
+  · rfl
+  · rfl
+  · omega
+
+theorem gen_last_is_model (l : Int) (m : Mapping) (h : m.count ≤ 2) :
+    Gen.C05.ZoneLocalMapping.last (buildInstant l) m = m.last l := by
+  rw [gen_ZoneLocalMapping_last_eq]
+  unfold Mapping.last
+  rcases hm : m.count with _ | _ | _ | k
+  · rfl
+  · rfl
+  · rfl
+  · omega
+
+/-- `single()` agrees with the model whenever the two candidates of an ambiguous time can be built (always, away from
+    the ends of time: C05 `buildInstant_ok`) -/
+theorem gen_single_is_model (l : Int) (m : Mapping) (h : m.count ≤ 2)
+    (hb : m.count = 2 → ∃ a b, buildInstant l m.early = .ok a ∧ buildInstant l m.late = .ok b) :
+    Gen.C05.ZoneLocalMapping.single (buildInstant l) m = m.single l := by
+  rw [gen_ZoneLocalMapping_single_eq]
+  unfold Mapping.single
+  rcases hm : m.count with _ | _ | _ | k
+  · rfl
+  · rfl
+  · obtain ⟨a, b, ha, hb'⟩ := hb hm
+    simp only [ha, hb', bind, Except.bind]
+  · omega
+
 /-! ## kernel evaluation: a three-period zone -/
 
 def demoPeriods : Array ZI := #[⟨BMIN, 0, "A", 0, 0⟩, ⟨0, 1000, "B", 3600, 3600⟩, ⟨1000, AMAX, "C", 0, 0⟩]
